@@ -6,7 +6,9 @@
                          float64, strings, booleans, slices, maps, structs matched by field name
                          (case-insensitively, names unambiguous), nested arbitrarily
    agree t1 t2 v v'    : every element, key and field of v' equals the one of v at the same place
-   clean c             : the defect switch map_value_into_key is off *)
+   convert_onto c t1 t2 v old : the same for an x : t2 that is not fresh; `old : dval` is what x held
+                         (slices: length and whole backing array), e.g. a reply variable used again
+   clean c             : the defect switches map_value_into_key and map_keeps_old_entries are off *)
 From Coq Require Import List ZArith String Permutation.
 From QV Require Import Conv ConvProofs.
 Import ListNotations.
@@ -26,6 +28,26 @@ Theorem C20_leaves : forall c, clean c -> forall t1 t2 v v', compat t1 t2 -> has
   convert c t1 t2 v = COk v' -> Permutation (leaves v') (leaves v).
 Proof. exact convert_leaves. Qed.
 Print Assumptions C20_leaves.
+
+(* the destination need not be fresh: whatever it held before (a longer slice, a map with other
+   entries, a struct with set fields, nested), the conversion of a compatible pair leaves exactly
+   what it leaves in a fresh variable — no element, entry or field of the previous content
+   survives — and the way back recovers the source whatever *its* destination held *)
+Theorem C20_destination_irrelevant : forall c, clean c -> forall t1 t2 v old, compat t1 t2 -> has_type t1 v ->
+  convert_onto c t1 t2 v old = convert c t1 t2 v.
+Proof. exact convert_onto_indep. Qed.
+Print Assumptions C20_destination_irrelevant.
+
+Theorem C20_holds_reused_destination : forall c, clean c -> forall t1 t2 v old, compat t1 t2 -> has_type t1 v ->
+  exists v', convert_onto c t1 t2 v old = COk v' /\ has_type t2 v' /\ agree t1 t2 v v' /\
+             forall old', convert_onto c t2 t1 v' old' = COk v.
+Proof. exact convert_onto_compat. Qed.
+Print Assumptions C20_holds_reused_destination.
+
+(* a destination holding zero values is a fresh one (any switches, any types) *)
+Theorem C20_zero_destination_is_fresh : forall c t1 t2 v, convert_onto c t1 t2 v (dzero t2) = convert c t1 t2 v.
+Proof. exact (fun c t1 t2 v => convert_into_fresh c t2 t1 v). Qed.
+Print Assumptions C20_zero_destination_is_fresh.
 
 (* second clause: kinds from different classes {bool, string, integer, float, slice, map, struct}
    are refused, whatever the value and whatever the switch *)
@@ -61,6 +83,17 @@ Theorem C20_refuted_map_other_kind_accepted :
   convert cfg_pinned wit_t1 wit3_t2 wit_v = COk (VMap [(VInt 5, VStr "")]).
 Proof. exact refuted_map_other_kind_accepted. Qed.
 Print Assumptions C20_refuted_map_other_kind_accepted.
+
+(* the pinned convertMap stores into the map the destination already holds: map[int8]int8{1:5}
+   into a map[int16]int16 holding {7:7} gives {7:7, 1:5}; the entry 7:7 is not the source's and
+   converting back yields two entries *)
+Theorem C20_refuted_map_keeps_old_entries :
+  compat wit_t1 wit_t2 /\ has_type wit_t1 wit_v /\ has_type wit_t2 (visible wit4_old) /\
+  convert_onto cfg_keeps wit_t1 wit_t2 wit_v wit4_old = COk (VMap [(VInt 7, VInt 7); (VInt 1, VInt 5)]) /\
+  ~ (exists v', convert_onto cfg_keeps wit_t1 wit_t2 wit_v wit4_old = COk v' /\ agree wit_t1 wit_t2 wit_v v') /\
+  convert cfg_keeps wit_t2 wit_t1 (VMap [(VInt 7, VInt 7); (VInt 1, VInt 5)]) <> COk wit_v.
+Proof. exact refuted_map_keeps_old_entries. Qed.
+Print Assumptions C20_refuted_map_keeps_old_entries.
 
 (* the hypotheses are met by a nested instance (struct with permuted, differently-cased fields
    holding an integer, a slice of floats, a map and a boolean) *)
